@@ -303,4 +303,42 @@ theorem nonStuck_of_sepsOnlyIn (c : Cfg) (o : POpts) (hG : GenStrip c o) (hO : O
     · intro _
       exact hexpN eI heI hnoexpI
 
+/-! ### same value -/
+
+theorem cfg_debug_eq (c : Cfg) (hd : c.debug = false) : ({ c with debug := false } : Cfg) = c := by
+  obtain ⟨f, m, d⟩ := c
+  simp only at hd
+  subst hd; rfl
+
+/-- the digits `numberBits` reads from a stored slice are those of the stripped slice -/
+theorem sliceDigits_of_sliceOK (c : Cfg) (o : POpts) (hG : GenStrip c o) (k : Comp) (R : List Nat)
+    (hok : SliceOK c k R) : sliceDigits c k (nonSep c R) = sliceDigits c k R := by
+  rcases hok with ⟨_, hn⟩ | ⟨_, ds, e', hrun, hend⟩
+  · rw [nonSep_of_noSep c R hn]
+  · unfold sliceDigits
+    rw [cfg_debug_eq c hG.rel.debug, hrun,
+      parseDigits_nosep c k _ hG.rel.debug (hG.rel.reach k) (Bytes.new (nonSep c R)) (nonSep_noSep c R)]
+    have htr := parseDigits_trace c k _ hG.rel.debug hG.sepDigM _ e' ds (by simp [Bytes.Valid, Bytes.new]) hrun
+    have hyl := htr.2.2.2.1
+    simp only [new_slc, new_index, hend, slice_zero_length] at hyl
+    simp only [new_slc, new_index, List.drop_zero]
+    have := digitsPrefix_append c.mantissaRadix (nonSep c R) ds [] hyl (by intro x hx; cases hx)
+    rw [List.append_nil] at this
+    exact this
+
+/-- related numbers whose stored slices re-scan consistently have the same value -/
+theorem numberBits_of_numRel (c : Cfg) (o : POpts) (hG : GenStrip c o) (f : Fmt) (n n' : Number) (h : NumRel c n n')
+    (hok : SlicesOK c n) : numberBits c f n' = numberBits c f n := by
+  obtain ⟨h1, h2, h3, h4, h5, h6, h7⟩ := h
+  unfold numberBits
+  rw [h1, h2, h3, h4, h5, h6, h7]
+  cases hmd : n.manyDigits with
+  | false => rfl
+  | true =>
+    obtain ⟨hI, hF⟩ := hok hmd
+    simp only [if_true, sliceDigits_of_sliceOK c o hG .integer n.integer hI]
+    cases hfr : n.fraction with
+    | none => rfl
+    | some fd => simp only [Option.map_some, sliceDigits_of_sliceOK c o hG .fraction fd (hF fd hfr)]
+
 end LexVerif.Proof.Sep
